@@ -239,7 +239,7 @@ def run_case(w, c):
                 o.update(st='ok', q=qjson(cur.smallest_fraction), owner=cur.qty_cls.__name__)
             except Exception as exc:
                 o['exc'] = type(exc).__name__
-            probe = sym if sym not in ('', '#5') else 'QQQ'
+            probe = sym if sym not in ('', '#5') else 'QQ%s' % c['id'].split(':')[-1]
             try:
                 Unit(probe)
                 o['registered'] = True
@@ -258,6 +258,29 @@ def run_case(w, c):
                 except Exception:
                     o['later_ok'] = False
             ev['obs'] = o
+        elif op == 'construct':
+            decimalfp.set_dflt_rounding_mode(ROUNDING[c['mode']])
+            try:
+                M = w.Money
+                sym = 'U' + c['id'].split(':')[-1]
+                cur = M.new_unit(sym, 'user currency', None, mk_value(c['sfv']))
+                o = dict(st='err', ongrid=False, R=[], neg=False)
+                try:
+                    if c['how'] == 'str':
+                        m = M('%s %s' % (c['text'], sym))
+                    elif c['how'] == 'sum':
+                        x = M(mk_value(c['amtv']), cur)
+                        m = x + x - x
+                    else:
+                        m = M(mk_value(c['amtv']), cur)
+                    k = Fraction(m.amount) / Fraction(cur.smallest_fraction)
+                    o.update(st='ok', ongrid=(k.denominator == 1 and not isinstance(m.amount, float)),
+                             R=limbs(abs(int(k))), neg=k < 0)
+                except Exception as exc:
+                    o['exc'] = type(exc).__name__
+                ev['obs'] = o
+            finally:
+                decimalfp.set_dflt_rounding_mode(ROUNDING.ROUND_HALF_EVEN)
         elif op == 'isocount':
             from quantity.money import currencies
             ev['n'] = len(getattr(currencies, '_currency_dict', getattr(currencies, '_CURRENCY_DICT', {})))
